@@ -28,12 +28,14 @@
                              reader's final buffer, "out is parts with exactly one file overwritten from the start
                              of its AEND chunk on".
    Primitives (block ciphers, compressor, KDF) are universally quantified with the laws the C01 theorems need.
-   Not covered here: update / delete at byte level (they rewrite the archive through run_transform_entry: C10 / C14
-   areas; delete is bridged at the logical level only, Props/C11.v C11_delete_spec). *)
+   delete is bridged for archives without solid blocks (theorems C11_delete_container_entries / _logical / _abs).  Not covered here: update at byte
+   level (it rewrites the archive through run_transform_entry and create_entry: C10 / C14 / C01 areas), delete with
+   solid blocks (expand / rebuild are parameters of run_edit), and wf_archive of an appended file (the delete
+   theorems need it; C14's writer theorems give it for written archives). *)
 From PNA Require Import Base Crc32 Name Codec Chunk Archive Entry Flatten Cbc Ctr Pipeline Aes Camellia
   BaseFacts ChunkFacts ArchiveFacts EntryFacts OffsetFacts PartsFacts CbcFacts PipelineFacts AesFacts CamelliaFacts.
 From PNA Require Import Fs Extract CreateTransportFacts AppendContainerFacts.
-From PNA Require Update UpdateFacts ArchiveRun.
+From PNA Require Update UpdateFacts ArchiveRun Wf RecutFacts WfTransformFacts Transform.
 Open Scope N_scope.
 
 (* the operation of these theorems is the append the `append` cases run against the library *)
@@ -340,6 +342,224 @@ Check C11_append_multipart :
     read_parts_b out = Ok (es ++ news, FinOk, []).
 Print Assumptions C11_append_multipart.
 
+(* the invariant of C11_history_invariant on files: appending names not yet archived (hist_ok) to a file whose decoded
+   entries have distinct names gives a file whose decoded entries have distinct names *)
+Theorem C11_append_container_history :
+  forall (E D : encryption -> bytes -> bytes -> bytes) (compress : compression -> N -> list bytes -> list bytes)
+         (decompress : compression -> bytes -> res bytes) (verify : bytes -> bytes -> res bytes),
+  (forall a k c, len16 c -> len16 (D a k c)) ->
+  (forall a k b, len16 b -> D a k (E a k b) = b) ->
+  (forall a k b, len16 b -> len16 (E a k b)) ->
+  (forall c lvl ws, decompress c (concat (compress c lvl ws)) = Ok (concat ws)) ->
+  (forall c lvl (ws ws' : list bytes), concat ws = concat ws' -> concat (compress c lvl ws) = concat (compress c lvl ws')) ->
+  forall (pw : bytes) (rb : normal_entry -> list N) (srb : solid_entry -> list N) (b : bytes)
+         (es : list (list chunk)) (s : rstate) (a : Update.archive) (kd kt : bool) (walk : list Update.node)
+         (a' : Update.archive) (jobs : list job) (new : list xentry),
+  raw_entries rds b = Ok (es, FinOk, s) -> r_buf s = [] ->
+  logical E D decompress verify pw rb srb b = Ok a ->
+  Update.step a (Update.OAppend kd kt walk) = Ok a' -> carries_nodes kd kt walk new ->
+  Forall2 carries jobs new -> Forall (wf_job E compress verify pw) jobs ->
+  Forall (fun e : xentry => e_kind e <= 3) new ->
+  (forall j : job, In j jobs -> reads_to_end E compress rb j) ->
+  NoDup (Update.names a) -> UpdateFacts.hist_ok a [Update.OAppend kd kt walk] ->
+  exists (b' : bytes) (s' : rstate),
+    append_at b (new_raws E compress jobs) = Ok (b', r_next s) /\
+    logical E D decompress verify pw rb srb b' = Ok (Update.final a [Update.OAppend kd kt walk]) /\
+    NoDup (Update.names (Update.final a [Update.OAppend kd kt walk])) /\
+    raw_entries rds b' = Ok (es ++ new_raws E compress jobs, FinOk, s') /\ r_buf s' = [] /\ r_next s' = r_next s.
+Proof. exact append_container_history. Qed.
+Check C11_append_container_history :
+  forall (E D : encryption -> bytes -> bytes -> bytes) (compress : compression -> N -> list bytes -> list bytes)
+         (decompress : compression -> bytes -> res bytes) (verify : bytes -> bytes -> res bytes),
+  (forall a k c, len16 c -> len16 (D a k c)) ->
+  (forall a k b, len16 b -> D a k (E a k b) = b) ->
+  (forall a k b, len16 b -> len16 (E a k b)) ->
+  (forall c lvl ws, decompress c (concat (compress c lvl ws)) = Ok (concat ws)) ->
+  (forall c lvl (ws ws' : list bytes), concat ws = concat ws' -> concat (compress c lvl ws) = concat (compress c lvl ws')) ->
+  forall (pw : bytes) (rb : normal_entry -> list N) (srb : solid_entry -> list N) (b : bytes)
+         (es : list (list chunk)) (s : rstate) (a : Update.archive) (kd kt : bool) (walk : list Update.node)
+         (a' : Update.archive) (jobs : list job) (new : list xentry),
+  raw_entries rds b = Ok (es, FinOk, s) -> r_buf s = [] ->
+  logical E D decompress verify pw rb srb b = Ok a ->
+  Update.step a (Update.OAppend kd kt walk) = Ok a' -> carries_nodes kd kt walk new ->
+  Forall2 carries jobs new -> Forall (wf_job E compress verify pw) jobs ->
+  Forall (fun e : xentry => e_kind e <= 3) new ->
+  (forall j : job, In j jobs -> reads_to_end E compress rb j) ->
+  NoDup (Update.names a) -> UpdateFacts.hist_ok a [Update.OAppend kd kt walk] ->
+  exists (b' : bytes) (s' : rstate),
+    append_at b (new_raws E compress jobs) = Ok (b', r_next s) /\
+    logical E D decompress verify pw rb srb b' = Ok (Update.final a [Update.OAppend kd kt walk]) /\
+    NoDup (Update.names (Update.final a [Update.OAppend kd kt walk])) /\
+    raw_entries rds b' = Ok (es ++ new_raws E compress jobs, FinOk, s') /\ r_buf s' = [] /\ r_next s' = r_next s.
+Print Assumptions C11_append_container_history.
+
+(* every chain the split writer lays out (PartsFacts.chain: any distribution of the chunk stream of well-formed entries
+   over numbered parts, entries may straddle parts): the walk ends in the last part, the result is byte for byte the
+   chain of the same bodies with the new entries' chunks behind the last one, and it reads back as old ++ new *)
+Theorem C11_append_written_chain :
+  forall (es pre : list (list chunk)) (b : list chunk) (n0 : N) (news : list (list chunk)),
+  Forall wf_entry es -> concat (pre ++ [b]) = concat es -> n0 + len pre < 2 ^ 32 -> Forall wf_entry news ->
+  read_parts rds (chain n0 (pre ++ [b])) = Ok (es, FinOk) /\
+  append_parts (chain n0 (pre ++ [b])) news = Ok (chain n0 (pre ++ [b ++ concat news])) /\
+  read_parts rds (chain n0 (pre ++ [b ++ concat news])) = Ok (es ++ news, FinOk) /\
+  read_parts read_chunk_slice (chain n0 (pre ++ [b ++ concat news])) = Ok (es ++ news, FinOk).
+Proof. exact append_written_chain. Qed.
+Check C11_append_written_chain :
+  forall (es pre : list (list chunk)) (b : list chunk) (n0 : N) (news : list (list chunk)),
+  Forall wf_entry es -> concat (pre ++ [b]) = concat es -> n0 + len pre < 2 ^ 32 -> Forall wf_entry news ->
+  read_parts rds (chain n0 (pre ++ [b])) = Ok (es, FinOk) /\
+  append_parts (chain n0 (pre ++ [b])) news = Ok (chain n0 (pre ++ [b ++ concat news])) /\
+  read_parts rds (chain n0 (pre ++ [b ++ concat news])) = Ok (es ++ news, FinOk) /\
+  read_parts read_chunk_slice (chain n0 (pre ++ [b ++ concat news])) = Ok (es ++ news, FinOk).
+Print Assumptions C11_append_written_chain.
+
+(* multipart, decoded: the logical view of the chain after the append = the old one ++ what the jobs carry; bridge to Update.append *)
+Theorem C11_append_multipart_logical :
+  forall (E D : encryption -> bytes -> bytes -> bytes) (compress : compression -> N -> list bytes -> list bytes)
+         (decompress : compression -> bytes -> res bytes) (verify : bytes -> bytes -> res bytes),
+  (forall a k c, len16 c -> len16 (D a k c)) ->
+  (forall a k b, len16 b -> D a k (E a k b) = b) ->
+  (forall a k b, len16 b -> len16 (E a k b)) ->
+  (forall c lvl ws, decompress c (concat (compress c lvl ws)) = Ok (concat ws)) ->
+  (forall c lvl (ws ws' : list bytes), concat ws = concat ws' -> concat (compress c lvl ws) = concat (compress c lvl ws')) ->
+  forall (pw : bytes) (rb : normal_entry -> list N) (srb : solid_entry -> list N) (parts : list bytes)
+         (es : list (list chunk)) (old : list xentry) (jobs : list job) (new : list xentry),
+  read_parts_b parts = Ok (es, FinOk, []) ->
+  xlogical_parts E D decompress verify pw rb srb parts = Ok old ->
+  Forall2 carries jobs new -> Forall (wf_job E compress verify pw) jobs ->
+  Forall (fun e : xentry => e_kind e <= 3) new ->
+  (forall j : job, In j jobs -> reads_to_end E compress rb j) ->
+  exists out : list bytes,
+    append_parts parts (new_raws E compress jobs) = Ok out /\
+    one_part_rewritten (new_raws E compress jobs) parts out /\
+    xlogical_parts E D decompress verify pw rb srb out = Ok (old ++ new) /\
+    logical_parts E D decompress verify pw rb srb out = Ok (Update.append (map abs old) (map abs new)) /\
+    read_parts_b out = Ok (es ++ new_raws E compress jobs, FinOk, []).
+Proof. exact append_multipart_logical. Qed.
+Check C11_append_multipart_logical :
+  forall (E D : encryption -> bytes -> bytes -> bytes) (compress : compression -> N -> list bytes -> list bytes)
+         (decompress : compression -> bytes -> res bytes) (verify : bytes -> bytes -> res bytes),
+  (forall a k c, len16 c -> len16 (D a k c)) ->
+  (forall a k b, len16 b -> D a k (E a k b) = b) ->
+  (forall a k b, len16 b -> len16 (E a k b)) ->
+  (forall c lvl ws, decompress c (concat (compress c lvl ws)) = Ok (concat ws)) ->
+  (forall c lvl (ws ws' : list bytes), concat ws = concat ws' -> concat (compress c lvl ws) = concat (compress c lvl ws')) ->
+  forall (pw : bytes) (rb : normal_entry -> list N) (srb : solid_entry -> list N) (parts : list bytes)
+         (es : list (list chunk)) (old : list xentry) (jobs : list job) (new : list xentry),
+  read_parts_b parts = Ok (es, FinOk, []) ->
+  xlogical_parts E D decompress verify pw rb srb parts = Ok old ->
+  Forall2 carries jobs new -> Forall (wf_job E compress verify pw) jobs ->
+  Forall (fun e : xentry => e_kind e <= 3) new ->
+  (forall j : job, In j jobs -> reads_to_end E compress rb j) ->
+  exists out : list bytes,
+    append_parts parts (new_raws E compress jobs) = Ok out /\
+    one_part_rewritten (new_raws E compress jobs) parts out /\
+    xlogical_parts E D decompress verify pw rb srb out = Ok (old ++ new) /\
+    logical_parts E D decompress verify pw rb srb out = Ok (Update.append (map abs old) (map abs new)) /\
+    read_parts_b out = Ok (es ++ new_raws E compress jobs, FinOk, []).
+Print Assumptions C11_append_multipart_logical.
+
+(* delete (WfTransformFacts.run_edit ... CDelete = run_transform_entry with the delete transformer, C10 / C14) on the
+   bytes of an archive the strict recogniser accepts and that holds no solid block: the archive written holds exactly
+   the entries whose name is not selected, in order (normalize: empty data chunks are not re-written), is accepted
+   again, and leaves no entry open (so an append can follow) *)
+Theorem C11_delete_container_entries :
+  forall (hdr_tok content_tok : normal_entry -> bytes) (expand : solid_entry -> res (list normal_entry))
+         (rebuild : solid_entry -> list normal_entry -> solid_entry) (keep pw : bool) (nf : N)
+         (sel : bytes -> bool) (b : bytes) (ns : list normal_entry),
+  Wf.wf_archive b = true -> read_archive b = Ok (map RNormal ns) ->
+  let b' := write_raw_archive 0 (map ser_normal (filter (kept sel) ns)) in
+  WfTransformFacts.run_edit hdr_tok content_tok expand rebuild keep pw Transform.CDelete nf sel b = Ok b' /\
+  Wf.wf_archive b' = true /\ read_archive b' = Ok (map RNormal (map normalize (filter (kept sel) ns))) /\
+  (exists (es' : list (list chunk)) (s' : rstate),
+     raw_entries rds b' = Ok (es', FinOk, s') /\ r_buf s' = [] /\ r_next s' = false).
+Proof. exact delete_container_entries. Qed.
+Check C11_delete_container_entries :
+  forall (hdr_tok content_tok : normal_entry -> bytes) (expand : solid_entry -> res (list normal_entry))
+         (rebuild : solid_entry -> list normal_entry -> solid_entry) (keep pw : bool) (nf : N)
+         (sel : bytes -> bool) (b : bytes) (ns : list normal_entry),
+  Wf.wf_archive b = true -> read_archive b = Ok (map RNormal ns) ->
+  let b' := write_raw_archive 0 (map ser_normal (filter (kept sel) ns)) in
+  WfTransformFacts.run_edit hdr_tok content_tok expand rebuild keep pw Transform.CDelete nf sel b = Ok b' /\
+  Wf.wf_archive b' = true /\ read_archive b' = Ok (map RNormal (map normalize (filter (kept sel) ns))) /\
+  (exists (es' : list (list chunk)) (s' : rstate),
+     raw_entries rds b' = Ok (es', FinOk, s') /\ r_buf s' = [] /\ r_next s' = false).
+Print Assumptions C11_delete_container_entries.
+
+(* decoded (any block cipher / decompressor / KDF — no law needed: nothing is re-encoded): the logical entries of the
+   archive delete writes are those of the old one whose name is not selected, unchanged and in order.
+   drained rb n: the buffer sizes chosen for n (and for n without its empty data chunks) read its data to the end *)
+Theorem C11_delete_container_logical :
+  forall (E D : encryption -> bytes -> bytes -> bytes) (decompress : compression -> bytes -> res bytes)
+         (verify : bytes -> bytes -> res bytes) (hdr_tok content_tok : normal_entry -> bytes)
+         (expand : solid_entry -> res (list normal_entry))
+         (rebuild : solid_entry -> list normal_entry -> solid_entry) (keep pw' : bool) (nf : N)
+         (sel : bytes -> bool) (pw : bytes) (rb : normal_entry -> list N) (srb : solid_entry -> list N)
+         (b : bytes) (ns : list normal_entry) (old : list xentry),
+  Wf.wf_archive b = true -> read_archive b = Ok (map RNormal ns) -> Forall (drained rb) ns ->
+  xlogical E D decompress verify pw rb srb b = Ok old ->
+  exists b' : bytes,
+    WfTransformFacts.run_edit hdr_tok content_tok expand rebuild keep pw' Transform.CDelete nf sel b = Ok b' /\
+    Wf.wf_archive b' = true /\
+    xlogical E D decompress verify pw rb srb b' = Ok (filter (fun x : xentry => negb (sel (e_name x))) old) /\
+    (exists (es' : list (list chunk)) (s' : rstate),
+       raw_entries rds b' = Ok (es', FinOk, s') /\ r_buf s' = [] /\ r_next s' = false).
+Proof. exact delete_container_logical. Qed.
+Check C11_delete_container_logical :
+  forall (E D : encryption -> bytes -> bytes -> bytes) (decompress : compression -> bytes -> res bytes)
+         (verify : bytes -> bytes -> res bytes) (hdr_tok content_tok : normal_entry -> bytes)
+         (expand : solid_entry -> res (list normal_entry))
+         (rebuild : solid_entry -> list normal_entry -> solid_entry) (keep pw' : bool) (nf : N)
+         (sel : bytes -> bool) (pw : bytes) (rb : normal_entry -> list N) (srb : solid_entry -> list N)
+         (b : bytes) (ns : list normal_entry) (old : list xentry),
+  Wf.wf_archive b = true -> read_archive b = Ok (map RNormal ns) -> Forall (drained rb) ns ->
+  xlogical E D decompress verify pw rb srb b = Ok old ->
+  exists b' : bytes,
+    WfTransformFacts.run_edit hdr_tok content_tok expand rebuild keep pw' Transform.CDelete nf sel b = Ok b' /\
+    Wf.wf_archive b' = true /\
+    xlogical E D decompress verify pw rb srb b' = Ok (filter (fun x : xentry => negb (sel (e_name x))) old) /\
+    (exists (es' : list (list chunk)) (s' : rstate),
+       raw_entries rds b' = Ok (es', FinOk, s') /\ r_buf s' = [] /\ r_next s' = false).
+Print Assumptions C11_delete_container_logical.
+
+(* the bridge for delete: abs (file after delete) = Update.delete matched (abs file) — C11_delete_spec on real files *)
+Theorem C11_delete_container_abs :
+  forall (E D : encryption -> bytes -> bytes -> bytes) (decompress : compression -> bytes -> res bytes)
+         (verify : bytes -> bytes -> res bytes) (hdr_tok content_tok : normal_entry -> bytes)
+         (expand : solid_entry -> res (list normal_entry))
+         (rebuild : solid_entry -> list normal_entry -> solid_entry) (keep pw' : bool) (nf : N)
+         (matched : list bytes) (pw : bytes) (rb : normal_entry -> list N) (srb : solid_entry -> list N)
+         (b : bytes) (ns : list normal_entry) (a : Update.archive),
+  Wf.wf_archive b = true -> read_archive b = Ok (map RNormal ns) -> Forall (drained rb) ns ->
+  logical E D decompress verify pw rb srb b = Ok a ->
+  exists b' : bytes,
+    WfTransformFacts.run_edit hdr_tok content_tok expand rebuild keep pw' Transform.CDelete nf
+      (fun p : bytes => Update.mem p matched) b = Ok b' /\
+    Wf.wf_archive b' = true /\
+    logical E D decompress verify pw rb srb b' = Ok (Update.delete matched a) /\
+    Update.step a (Update.ODelete matched) = Ok (Update.delete matched a) /\
+    (exists (es' : list (list chunk)) (s' : rstate),
+       raw_entries rds b' = Ok (es', FinOk, s') /\ r_buf s' = [] /\ r_next s' = false).
+Proof. exact delete_container_abs. Qed.
+Check C11_delete_container_abs :
+  forall (E D : encryption -> bytes -> bytes -> bytes) (decompress : compression -> bytes -> res bytes)
+         (verify : bytes -> bytes -> res bytes) (hdr_tok content_tok : normal_entry -> bytes)
+         (expand : solid_entry -> res (list normal_entry))
+         (rebuild : solid_entry -> list normal_entry -> solid_entry) (keep pw' : bool) (nf : N)
+         (matched : list bytes) (pw : bytes) (rb : normal_entry -> list N) (srb : solid_entry -> list N)
+         (b : bytes) (ns : list normal_entry) (a : Update.archive),
+  Wf.wf_archive b = true -> read_archive b = Ok (map RNormal ns) -> Forall (drained rb) ns ->
+  logical E D decompress verify pw rb srb b = Ok a ->
+  exists b' : bytes,
+    WfTransformFacts.run_edit hdr_tok content_tok expand rebuild keep pw' Transform.CDelete nf
+      (fun p : bytes => Update.mem p matched) b = Ok b' /\
+    Wf.wf_archive b' = true /\
+    logical E D decompress verify pw rb srb b' = Ok (Update.delete matched a) /\
+    Update.step a (Update.ODelete matched) = Ok (Update.delete matched a) /\
+    (exists (es' : list (list chunk)) (s' : rstate),
+       raw_entries rds b' = Ok (es', FinOk, s') /\ r_buf s' = [] /\ r_next s' = false).
+Print Assumptions C11_delete_container_abs.
+
 (* ---- the premises are satisfiable ---------------------------------------------------------------------------------- *)
 (* a written archive (file entry with a private chunk + solid entry); a foreign layout (ANXT in front, 40 bytes of
    another file behind AEND: the tail of it survives behind the new end marker and is not read); a file that ends
@@ -374,3 +594,26 @@ Example C11_container_logical_premises_met :
     (forall c lvl (ws ws' : list bytes), concat ws = concat ws' -> concat (tx_compress c lvl ws) = concat (tx_compress c lvl ws')).
 Proof. exact append_logical_premises. Qed.
 Print Assumptions C11_container_logical_premises_met.
+
+(* the old file holds a solid block (three AES-encrypted entries inside a stored solid entry) followed by the same
+   three entries as normal entries: the logical view expands the block in place *)
+Example C11_container_solid_premises_met :
+  exists es s, raw_entries rds tx_solid_arch = Ok (es, FinOk, s) /\ r_buf s = [] /\ length es = 4%nat /\
+    xlogical real_E_of real_D_of tx_decompress tx_verify tx_pw tx_rb tx_srb tx_solid_arch
+      = Ok (create_from_tree tx_c tx_order tx_tree ++ create_from_tree tx_c tx_order tx_tree).
+Proof. exact append_logical_solid_premises. Qed.
+Print Assumptions C11_container_solid_premises_met.
+
+(* delete: the AES archive is accepted by the strict recogniser, holds normal entries only, buffers of 16 bytes drain
+   every entry; deleting d/a.txt leaves the directory and the link *)
+Example C11_container_delete_premises_met :
+  Wf.wf_archive tx_arch = true /\ read_archive tx_arch = Ok (map RNormal (map (build_job real_E_of tx_compress) tx_jobs)) /\
+  Forall (drained tx_rb2) (map (build_job real_E_of tx_compress) tx_jobs) /\
+  xlogical real_E_of real_D_of tx_decompress tx_verify tx_pw tx_rb2 tx_srb tx_arch = Ok (create_from_tree tx_c tx_order tx_tree) /\
+  exists b', WfTransformFacts.run_edit (fun _ => []) (fun _ => []) (fun _ => Ok []) (fun s _ => s) false false Transform.CDelete 1
+               (fun p => Update.mem p [lit "d/a.txt"]) tx_arch = Ok b' /\
+    xlogical real_E_of real_D_of tx_decompress tx_verify tx_pw tx_rb2 tx_srb b'
+      = Ok (filter (fun x => negb (Update.mem (e_name x) [lit "d/a.txt"])) (create_from_tree tx_c tx_order tx_tree)) /\
+    length (filter (fun x => negb (Update.mem (e_name x) [lit "d/a.txt"])) (create_from_tree tx_c tx_order tx_tree)) = 2%nat.
+Proof. exact delete_premises. Qed.
+Print Assumptions C11_container_delete_premises_met.
